@@ -88,18 +88,6 @@ func (server *Server) registerSugarExecutors() {
 	})
 
 	server.RegisterExexutor("GETRANGE", func(conn *Conn, cmd string, args Arguments) (*Message, error) {
-		rageValidiator := func(val int, max int) int {
-			if val < 0 {
-				val = max + val
-				if val < 0 {
-					return 0
-				}
-			}
-			if max < val {
-				val = max - 1
-			}
-			return val
-		}
 		key, err := nextKeyArgument(cmd, args)
 		if err != nil {
 			return nil, err
@@ -120,8 +108,29 @@ func (server *Server) registerSugarExecutors() {
 		if err != nil {
 			return NewNilMessage(), nil
 		}
-		start = rageValidiator(start, len(getVal))
-		end = rageValidiator(end, len(getVal))
+		// Follows the index clamping of Redis (GETRANGE).
+		strlen := len(getVal)
+		if start < 0 && end < 0 && end < start {
+			return NewBulkMessage(""), nil
+		}
+		if start < 0 {
+			start = strlen + start
+		}
+		if end < 0 {
+			end = strlen + end
+		}
+		if start < 0 {
+			start = 0
+		}
+		if end < 0 {
+			end = 0
+		}
+		if strlen <= end {
+			end = strlen - 1
+		}
+		if strlen == 0 || end < start {
+			return NewBulkMessage(""), nil
+		}
 		return NewBulkMessage(getVal[start:(end + 1)]), nil
 	})
 
